@@ -399,9 +399,29 @@ def main_wrapper(fn):
     except MachineryError as e:
         sys.stderr.write("MACHINERY FAILURE: %s\n" % e)
         sys.exit(2)
-    except Exception:       # a bug in the harness (or an unanticipated library exception): never a verdict
+    except Exception as e:
         import traceback
         traceback.print_exc()
+        # Where was it raised?  An exception that originates inside the library (innermost frame under <repo>/python, or an exception
+        # class defined by tskit / _tskit) while a driver exercises it on inputs on which the unchanged tree never raises is a change
+        # of behaviour, i.e. a verdict; one raised by harness code is a bug of the harness and never a verdict.
+        frames = traceback.extract_tb(e.__traceback__)
+        inner = frames[-1].filename if frames else ""
+        from_library = inner.startswith(os.path.join(REPO, "python")) or type(e).__module__.split(".")[0] in ("tskit", "_tskit")
+        if from_library:
+            pid = os.path.basename(sys.argv[0]).replace(".py", "").upper() if sys.argv and sys.argv[0] else "C??"
+            try:
+                pid = sys.modules["__main__"].__spec__.name.split(".")[-1].upper()
+            except Exception:
+                pass
+            os.makedirs(REPLAYS, exist_ok=True)
+            path = os.path.join(REPLAYS, "%s-%d-library-exception.json" % (pid, SEED))
+            with open(path, "w") as fh:
+                json.dump(dict(property=pid, what="the library raised %s inside a driver step that never raises on the unchanged tree" % type(e).__name__,
+                               traceback=traceback.format_exc()[-4000:]), fh, indent=1)
+            print("VIOLATION property=%s replay=%s" % (pid, path))
+            print("  what: the library raised %s: %s" % (type(e).__name__, str(e)[:300]))
+            sys.exit(1)
         sys.stderr.write("MACHINERY FAILURE: unexpected exception in the driver (see traceback)\n")
         sys.exit(2)
     sys.exit(rc)
